@@ -45,9 +45,11 @@ package file
 //@ func (*file.shardNodeFile).length
 //@ trusted
 //@ ensures result == flen(s)
+//@ ensures loads == old(loads)
 //@ assigns file.shardNodeFile.metadata, file.shardNodeFile.unpackLk
 
 //@ func (*file.shardNodeReader).Seek
+//@ ensures seeking-requests-no-block: loads == old(loads)
 //@ domain no-wrap: -(1 << 62) < offset && offset < (1 << 62) && -(1 << 62) < s.offset && s.offset < (1 << 62) && -(1 << 62) < flen(s.shardNodeFile) && flen(s.shardNodeFile) < (1 << 62)
 //@ ensures negative-target-is-error: seekTarget(whence, offset, old(s.offset), flen(s.shardNodeFile)) < 0 ==> err != nil && s.offset == old(s.offset) && s.rdr == old(s.rdr)
 //@ ensures lands-on-target: seekTarget(whence, offset, old(s.offset), flen(s.shardNodeFile)) >= 0 ==> err == nil && result == seekTarget(whence, offset, old(s.offset), flen(s.shardNodeFile)) && s.offset == result && s.rdr == nil
